@@ -817,7 +817,8 @@ class WMSGroupLayer(WMSLayerBase):
         self.res_range = merge_layer_res_ranges(all_layers)
 
     def is_opaque(self, query):
-        return any(x.is_opaque(query) for x in self.layers)
+        return any(x.is_opaque(query) for x in self.layers
+                   if x.renders_query(query))
 
     @property
     def legend_size(self):
@@ -838,7 +839,8 @@ class WMSGroupLayer(WMSLayerBase):
         else:
             layers = []
             for layer in self.layers:
-                layers.extend(layer.map_layers_for_query(query))
+                if layer.renders_query(query):
+                    layers.extend(layer.map_layers_for_query(query))
             return layers
 
     def info_layers_for_query(self, query):
